@@ -33,6 +33,10 @@ type solverSpec struct {
 
 var solvers = []solverSpec{
 	{name: "z3-new-5.1.0", cmd: func(f string, t int) []string { return []string{"z3-new", fmt.Sprintf("-T:%d", t), f} }},
+	// same solver, the other linear-arithmetic core: decides some quantified/nonlinear goals the default one does not
+	{name: "z3-new-5.1.0(arith.solver=2)", cmd: func(f string, t int) []string {
+		return []string{"z3-new", fmt.Sprintf("-T:%d", t), "smt.arith.solver=2", f}
+	}},
 	{name: "z3-4.8.12", cmd: func(f string, t int) []string { return []string{"/usr/bin/z3", fmt.Sprintf("-T:%d", t), f} }},
 	{name: "cvc5-1.0", cmd: func(f string, t int) []string {
 		return []string{"cvc5", "--lang=smt2", fmt.Sprintf("--tlimit=%d", t*1000), "--nl-ext=full", f}
